@@ -13,6 +13,7 @@ package main
 import (
 	"bytes"
 	"fmt"
+	"io"
 	"strings"
 
 	"github.com/Eyevinn/mp4ff/mp4"
@@ -697,6 +698,95 @@ func searchLazyWriter(rng *hx.Rng, n int) {
 			if !bytes.Equal(md.Data, want) || back.Size() != uint64(len(outb)) {
 				fail("lazy-writer(Encode+CopySampleData)", "header-plus-payload", w, fmt.Sprintf("mdat payload of the written segment %x, samples' bytes %x (segment %d bytes, boxes say %d)", md.Data, want, len(outb), back.Size()))
 			}
+		}
+	}
+}
+
+// searchOffsetReader: the position bookkeeping of the decoders (startPos) is not the position of the reader. MP4 data
+// that follows an application preamble in the same stream (DecodeFile on a ReadSeeker that is not at 0), and boxes
+// decoded one by one from a byte range of a bigger file (DecodeBoxLazyMdat(startPos, rs) with startPos the offset in
+// the bigger file): the decoded structure may not depend on the difference, in either mode.
+func searchOffsetReader(rng *hx.Rng, n int) {
+	for i := 0; i < n; i++ {
+		ff := genFragFile(rng, false)
+		zeof := i%2 == 0
+		orc := genOracle(rng)
+		pre := []int{1, 7, 16, 1000, 70000}[i%5]
+		evals++
+		w := fmt.Sprintf("file=%s preamble=%d DecStartOnMoof=%v", shortHex(ff.file), pre, ff.onmoof)
+		_, fl0, _, el0 := decodeFileFlags(ff.file, orc, zeof, ff.onmoof)
+		fm0, _, em0, _ := decodeFileFlags(ff.file, orc, zeof, ff.onmoof)
+		buf := make([]byte, pre+len(ff.file))
+		for j := 0; j < pre; j++ {
+			buf[j] = byte(0x55 + j)
+		}
+		copy(buf[pre:], ff.file)
+		flags := mp4.DecNoFlags
+		if ff.onmoof {
+			flags = mp4.DecStartOnMoof
+		}
+		var fm, fl *mp4.File
+		var em, el string
+		if p := hx.Try(func() {
+			var err error
+			fm, err = mp4.DecodeFile(newRS(buf, int64(pre), orc, zeof), mp4.WithDecodeFlags(flags))
+			if err != nil {
+				em, fm = "e", nil
+			}
+		}); p != "" {
+			em, fm = "p", nil
+		}
+		if p := hx.Try(func() {
+			var err error
+			fl, err = mp4.DecodeFile(newRS(buf, int64(pre), orc, zeof), mp4.WithDecodeMode(mp4.DecModeLazyMdat), mp4.WithDecodeFlags(flags))
+			if err != nil {
+				el, fl = "e", nil
+			}
+		}); p != "" {
+			el, fl = "p", nil
+		}
+		if a, b := stateString(fm0, em0), stateString(fm, em); a != b {
+			fail("DecodeFile(reader not at 0)", "structure-depends-on-reader-position", w, "in memory: reader at 0 "+clip200(a)+" behind a preamble "+clip200(b))
+		}
+		if a, b := stateString(fl0, el0), stateString(fl, el); a != b {
+			fail("DecodeFile(reader not at 0)", "structure-depends-on-reader-position", w, "lazy: reader at 0 "+clip200(a)+" behind a preamble "+clip200(b))
+		}
+		// box by box, startPos = offset in a bigger file of which the reader holds one range
+		base := uint64([]int{0, 4000, 1 << 20, 1 << 33}[i%4])
+		walk := func(lazy bool) string {
+			var parts []string
+			rs := newRS(ff.file, 0, orc, zeof)
+			pos := base
+			for k := 0; k < 64; k++ {
+				var b mp4.Box
+				var err error
+				p := hx.Try(func() {
+					if lazy {
+						b, err = mp4.DecodeBoxLazyMdat(pos, rs)
+					} else {
+						b, err = mp4.DecodeBox(pos, rs)
+					}
+				})
+				if p != "" {
+					parts = append(parts, "p")
+					break
+				}
+				if err == io.EOF {
+					parts = append(parts, "E")
+					break
+				}
+				if err != nil || b == nil {
+					parts = append(parts, "e")
+					break
+				}
+				parts = append(parts, fmt.Sprintf("%s:%x", b.Type(), b.Size()))
+				pos += b.Size()
+			}
+			return strings.Join(parts, "+")
+		}
+		wm, wl := walk(false), walk(true)
+		if wm != wl {
+			fail("DecodeBoxLazyMdat(startPos != reader position)", "box-sequence-differs", fmt.Sprintf("%s startPos-base=%d", w, base), "DecodeBox "+clip200(wm)+" DecodeBoxLazyMdat "+clip200(wl))
 		}
 	}
 }
